@@ -141,3 +141,14 @@ CLAIMS["C18"] = (
     "reference fit).",
     "The harness owns the only RNG (power method) by reseeding before every operation. Estimator budgets are capped (tol 1e-6).",
     "DESIGN.md §4 C18")
+CLAIMS["C11"] = (
+    "exploration",
+    "bounded exhaustive enumeration of estimator constructor-argument grids x designs x targets against the documented objective (reference certificate) and independent reference optima",
+    "All 11 estimators x the full grid of their documented constructor arguments (alpha, l1_ratio in {0,.1,.5,1}, C, gamma, weights "
+    "incl. zeros/None, group formats int / sizes / index lists incl. interleaved and out-of-order, positive, fit_intercept, method) x "
+    "4 designs x 2 targets (ties among uncensored survival samples): whenever the estimator reports stop_crit_ <= tol its "
+    "coefficients and intercept must be stationary for the objective written from the docstring; LinearSVC.coef_ must be the "
+    "primal image of dual_coef_; convex cases must match scikit-learn's optimum through the optimality-gap theorem.",
+    "Trusted: mc/estim.py documented_problem (hand-written from docstrings), mc/ref certificate, scikit-learn as comparison point "
+    "(the gap theorem is valid against any point).",
+    "DESIGN.md §4 C11")
